@@ -16,10 +16,12 @@
     §2 the 30 match payload kinds, uniformly     payload_roundtrip (+ payload_dispatch: the dispatcher runs the kind's decoder)
     §3 MatchField (value, optional mask)         matchField_roundtrip_partial     — classes OPENFLOW_BASIC and NXM_1
        Match (field list + padding)              match_roundtrip                  — every field decoded from inside the list
-    §4 actions through DecodeAction              actionOutput/Group/Setqueue/Push/PopVlan/PopMpls/DecNwTtl/Header/SetField
+    §4 actions through DecodeAction              actionOutput/Group/Setqueue/Push/PopVlan/PopMpls/DecNwTtl/Header/SetField,
+                                                 Nicira: nxConjunction / nxResubmitTable (2 subtypes) / nxDecTTL
        instructions through DecodeInstr          instrGotoTable / instrWriteMetadata / instrActions (any list of actions)
-    §5 messages through Parse                    parse_header_only (6 header-only types); flowMod_roundtrip (Match + instructions
-                                                 + actions nested); one-element Hello (concrete) hello_default_roundtrip
+    §5 messages through Parse                    parse_header_only (6 header-only types); switchConfig_roundtrip (2 types);
+                                                 flowMod_roundtrip (Match + instructions + actions nested);
+                                                 hello_one_element_roundtrip_partial, hello_default_roundtrip
 
   Where the round trip is FALSE in the model (= the Go code violates C05), the concrete counterexample is proved:
     matchField_experimenter_counterexample   experimenter-class OXM: Len() counts 4 id bytes MarshalBinary never writes; the
@@ -27,10 +29,13 @@
     actionMplsTtl_counterexample / actionNwTtl_counterexample / instrMeter_counterexample
                                              TTL / MeterId neither written nor read; InstrMeter followed by anything decodes
                                              to the all-zero instruction                                         (known D42)
+    nxResubmit_tableid_counterexample        NXActionResubmit.MarshalBinary stores TableID=255 in the receiver, not in the
+                                             buffer; decoded TableID is 0                                          (new)
     hello_two_elements_counterexample        HelloElemVersionBitmap.UnmarshalBinary reads bitmaps to the end of the buffer, not
                                              to its own Length: a Hello with two elements decodes to ONE element holding the
                                              second element's bytes as bitmaps                                   (D20, not fixed)
-    helloElem_followed_counterexample        the same seen on the element decoder: not correct when followed by other elements
+    helloElem_swallows_what_follows          the same in general: element ++ any words decodes to an element holding them all
+    helloElem_followed_counterexample        … and a concrete instance
   Representation change (not a defect): ipv4_short_form — a 4-byte net.IP comes back in the 16-byte form of the same address.
 -/
 import OFV.Model.All
@@ -42,6 +47,9 @@ import OFV.Lemmas.RTInstr
 import OFV.Lemmas.RTList
 import OFV.Lemmas.RTMsg
 import OFV.Lemmas.RTFlowMod
+import OFV.Lemmas.RTNx
+import OFV.Lemmas.RTSwitchConfig
+import OFV.Lemmas.RTHello
 namespace OFV.Props.C05
 open OFV OFV.Go OFV.Model OFV.RT
 
@@ -336,6 +344,47 @@ theorem actionNwTtl_counterexample (tail : Bytes) (k : Nat) :
   obtain ⟨h1, _, h3⟩ := actionNwTtl_decode 8 64 (.bytes (zeros 3)) (by decide)
   exact ⟨h1, h3 _ tail k (Slice.exact_wf _) (by simp [Slice.exact, Slice.bytes]; rfl)⟩
 
+/-! Nicira actions: type 0xffff, vendor 0x2320; the header's Length must be the kind's size (the encoder allocates
+    `Length` bytes). `nxHdr ln sub` / `nxHdrBytes ln sub` (OFV/Lemmas/RTNx.lean) are that header and its 10 bytes. -/
+
+theorem nxConjunction_roundtrip (c nc id k : Nat) (hc : c < 256) (hnc : nc < 256) (hid : id < 4294967296) :
+    let v := V.obj "NXActionConjunction" [nxHdr 16 Gen.openflow13.NXAST_CONJUNCTION, .num c, .num nc, .num id]
+    RoundTrip Action.marshalM (DecodeAction (k + 1)) v v
+      (nxHdrBytes 16 Gen.openflow13.NXAST_CONJUNCTION ++ [n8 c, n8 nc] ++ be32 (n32 id)) := by
+  obtain ⟨h1, _, h3⟩ := nxConjunction_rt c nc id hc hnc hid
+  exact ⟨h1, h1, fun data tail hd hb => h3 data tail k hd hb⟩
+
+/-- resubmit-table (subtype 14, withCT = false) and ct-resubmit (subtype 44, withCT = true) -/
+theorem nxResubmitTable_roundtrip (sub ct ip t k : Nat)
+    (hsub : (sub = Gen.openflow13.NXAST_RESUBMIT_TABLE ∧ ct = 0) ∨ (sub = Gen.openflow13.NXAST_CT_RESUBMIT ∧ ct = 1))
+    (hip : ip < 65536) (ht : t < 256) :
+    let v := V.obj "NXActionResubmitTable" [nxHdr 16 sub, .num ip, .num t, .bytes (zeros 3), .num ct]
+    RoundTrip Action.marshalM (DecodeAction (k + 1)) v v (nxHdrBytes 16 sub ++ be16 (n16 ip) ++ [n8 t] ++ zeros 3) := by
+  obtain ⟨h1, _, h3⟩ := nxResubmitTable_rt sub ct ip t hsub hip ht
+  exact ⟨h1, h1, fun data tail hd hb => h3 data tail k hd hb⟩
+
+theorem nxDecTTL_roundtrip (c k : Nat) (hc : c < 65536) :
+    let v := V.obj "NXActionDecTTL" [nxHdr 16 Gen.openflow13.NXAST_DEC_TTL, .num c, .bytes (zeros 4)]
+    RoundTrip Action.marshalM (DecodeAction (k + 1)) v v
+      (nxHdrBytes 16 Gen.openflow13.NXAST_DEC_TTL ++ be16 (n16 c) ++ zeros 4) := by
+  obtain ⟨h1, _, h3⟩ := nxDecTTL_rt c hc
+  exact ⟨h1, h1, fun data tail hd hb => h3 data tail k hd hb⟩
+
+/-- COUNTEREXAMPLE (new).  `NXActionResubmit.MarshalBinary` executes `a.TableID = OFPTT_ALL` — it stores 255 in the
+    RECEIVER and leaves the table byte of the buffer 0 — and `UnmarshalBinary` never assigns TableID.  So the value the
+    encoder leaves behind has TableID 255, and decoding its encoding yields TableID 0: an exported field differs after a
+    round trip (for every in_port and whatever follows).  The bytes themselves are reproduced. -/
+theorem nxResubmit_tableid_counterexample (ip t k : Nat) (hip : ip < 65536) :
+    let v := V.obj "NXActionResubmit" [nxHdr 16 Gen.openflow13.NXAST_RESUBMIT, .num ip, .num t, .bytes (zeros 3)]
+    let v1 := V.obj "NXActionResubmit" [nxHdr 16 Gen.openflow13.NXAST_RESUBMIT, .num ip, .num 255, .bytes (zeros 3)]
+    let v' := V.obj "NXActionResubmit" [nxHdr 16 Gen.openflow13.NXAST_RESUBMIT, .num ip, .num 0, .bytes (zeros 3)]
+    let bs := nxHdrBytes 16 Gen.openflow13.NXAST_RESUBMIT ++ be16 (n16 ip) ++ zeros 4
+    Action.marshalM v = .ok (bs, v1) ∧ Action.marshalM v' = .ok (bs, v1) ∧
+    ∀ (data : Slice) (tail : Bytes), data.WF → data.bytes = bs ++ tail → DecodeAction (k + 1) data = .ok v' := by
+  obtain ⟨h1, h3⟩ := nxResubmit_decode ip t hip
+  obtain ⟨h1', _⟩ := nxResubmit_decode ip 0 hip
+  exact ⟨h1, h1', fun data tail hd hb => h3 data tail k hd hb⟩
+
 /-- InstrGotoTable through DecodeInstr; pad (nil or zero bytes; NewInstrGotoTable: 3) comes back nil -/
 theorem instrGotoTable_roundtrip (ln tid kp : Nat) (hln : ln < 65536) (htid : tid < 256) :
     RoundTrip Instruction.marshalM DecodeInstr
@@ -439,6 +488,45 @@ example : ∃ is encs, InstrsRT is encs ∧ is.length = 3 :=
       (.cons (instrRT_actions Gen.openflow13.InstrType_APPLY_ACTIONS 32 _ _ (Or.inr (Or.inl rfl))
         (.cons (actionRT_setqueue 8 5 (by decide) (by decide))
           (.cons (actionRT_output 16 2 65535 (by decide) (by decide) (by decide)) .nil)) rfl (by decide)) .nil)), rfl⟩
+
+/-- SwitchConfig (get-config reply, type 8, and set-config, type 9) through Parse.  `MarshalBinary` stores 12 in
+    Header.Length; Parse of the 12 bytes followed by anything returns the value with that Length, which encodes to the
+    same bytes (first conjunct with `ln0 = 12`). -/
+theorem switchConfig_roundtrip (ver ty xid fl ms : Nat) (hver : ver < 256)
+    (hty : ty = Gen.openflow13.Type_GetConfigReply ∨ ty = Gen.openflow13.Type_SetConfig)
+    (hxid : xid < 4294967296) (hfl : fl < 65536) (hms : ms < 65536) :
+    let bs := [n8 ver, n8 ty] ++ be16 (n16 12) ++ be32 (n32 xid) ++ be16 (n16 fl) ++ be16 (n16 ms)
+    (∀ ln0, SwitchConfig.marshalM (switchConfigV ver ty ln0 xid fl ms) = .ok (bs, switchConfigV ver ty 12 xid fl ms)) ∧
+    ∀ (depth : Nat) (data : Slice) (tail : Bytes), data.WF → data.bytes = bs ++ tail →
+      parse depth data = .ok (switchConfigV ver ty 12 xid fl ms) :=
+  switchConfig_rt ver ty xid fl ms hver hty hxid hfl hms
+
+/-- Hello with exactly ONE version-bitmap element (any bitmaps `ws`, any element Length field `l`) through Parse, the
+    buffer holding exactly the message (`data.bytes = bs`: nothing after it).  `MarshalBinary` stores the size in
+    Header.Length.  PARTIAL: more than one element, or anything behind the message, is excluded — see
+    `helloElem_swallows_what_follows` and `hello_two_elements_counterexample`. -/
+theorem hello_one_element_roundtrip_partial (ver xid l : Nat) (ws : List Nat) (hver : ver < 256) (hxid : xid < 4294967296)
+    (hl : l < 65536) (hws : ∀ w ∈ ws, w < 4294967296) (hk : 12 + 4 * ws.length < 65536) :
+    let bs := [n8 ver, n8 0] ++ be16 (n16 (12 + 4 * ws.length)) ++ be32 (n32 xid) ++ (be16 (n16 1) ++ be16 (n16 l) ++ wordsBytes ws)
+    (∀ ln0, Hello.marshalM (helloV ver ln0 xid l ws) = .ok (bs, helloV ver (12 + 4 * ws.length) xid l ws)) ∧
+    ∀ (depth : Nat) (data : Slice), data.WF → data.bytes = bs →
+      parse depth data = .ok (helloV ver (12 + 4 * ws.length) xid l ws) :=
+  hello_one_rt ver xid l ws hver hxid hl hws hk
+
+/-- THE DEFECT IN GENERAL (D20, bitmap part).  `HelloElemVersionBitmap.UnmarshalBinary` run on the encoding of an element
+    with bitmaps `ws` followed by ANY further 32-bit words `more` (e.g. the next hello element) returns an element whose
+    bitmaps are `ws ++ more`: it reads to the end of the buffer, not to its own Length.  Only `more = []` round-trips. -/
+theorem helloElem_swallows_what_follows (recv : V) (l : Nat) (ws more : List Nat) (hl : l < 65536)
+    (hws : ∀ w ∈ ws, w < 4294967296) (hmore : ∀ w ∈ more, w < 4294967296) (hk : 4 + 4 * ws.length < 65536)
+    (data : Slice) (hd : data.WF)
+    (hb : data.bytes = (be16 (n16 1) ++ be16 (n16 l) ++ wordsBytes ws) ++ wordsBytes more) :
+    HelloElemVersionBitmap.marshalM (helloElemV l ws) = .ok (be16 (n16 1) ++ be16 (n16 l) ++ wordsBytes ws, helloElemV l ws) ∧
+    HelloElemVersionBitmap.unmarshal recv data = .ok (helloElemV l (ws ++ more)) := by
+  refine ⟨(helloElem_encode 1 l ws hk).1, ?_⟩
+  have := helloElem_decode recv data hd 1 l (by decide) hl (ws ++ more)
+    (fun w hw => by rcases List.mem_append.mp hw with h | h; exact hws w h; exact hmore w h)
+    (by rw [hb]; simp [wordsBytes, List.append_assoc])
+  simpa [helloElemV] using this
 
 /-- NewHello(4) (one version-bitmap element), xid 7: MarshalBinary sets Header.Length = 16; Parse of the 16 bytes gives the
     marshalled value back and it encodes to the same bytes. -/
